@@ -16,7 +16,10 @@ SPEC = {
              "MaxAttempts and at 1000 node slots; single transient storage fault (schedule code 2: the storage call of that step, in "
              "the shared tier for hybrid stores, returns an error): every fault position x every schedule of length 4/5 x "
              "2-3 nodes each with its own hybrid store over one shared tier, plus one random fault in a third of the random "
-             "histories; release clause: a further Release() of an allocator that already released its id, driven through the real "
+             "histories; lease clause: the caller's ctx stays live while a node runs, the heartbeat goroutine started by the claim is "
+             "identified by an inherited pprof label and its liveness is sampled from goroutine profiles; the `w` op is the 30 s "
+             "ticker firing: it renews (the loop's own renewNodeID) iff that goroutine is alive, else reports `dead`; time is "
+             "virtual (fake-clock double, miniredis FastForward); release clause: a further Release() of an allocator that already released its id, driven through the real "
              "code, every schedule of length 6 over three nodes on every store kind (a release-own must answer an unreleased "
              "hand-out to the same caller); free-running contention without gates, incl. 700 rounds (quick) of N in {2,4,8} generators/allocators "
              "released behind a spin barrier onto candidates whose pre-existing markers are absent / live / expired-not-yet-swept "
@@ -34,7 +37,8 @@ SPEC = {
         "WF (scope): liveness is bounded by the marker TTL (30 days for ids, 90 s lease for node slots, renewed by the "
         "heartbeat) - an id whose marker expired may be handed out again; the reference live-set of the predicate expires "
         "markers the same way",
-        "node-id leases: the holder renews in time (heartbeat 30 s < lease 90 s); a renewal after the lease lapsed re-asserts "
+        "node-id leases: the holder's ticker fires in time (heartbeat 30 s < lease 90 s; both literals, the 30 s ticker itself is "
+        "not run - its firing is a schedule step); that a firing renews is observed (heartbeat goroutine alive) and proved for the model; a renewal after the lease lapsed re-asserts "
         "the claim unconditionally (not a counted violation, stated)",
         "crypto/rand never fails (Go >= 1.24 aborts the process instead), so the `continue` on a random error is not modelled",
         "storage faults are transient errors of one call that is not applied (error-after-apply, e.g. a lost Redis reply, is "
